@@ -8,12 +8,14 @@ from props.c01 import first_free, py_slots
 TITLE = "Reconciliation converges to exactly the desired pods and then goes quiet"
 TECHNIQUE = ("Coq proof over the reconcile + environment model: a converged snapshot is a fixed point (no pod/claim write, all oracles); a settled snapshot whose "
              "plan is empty is converged (no stuck state); a fair round strictly decreases the measure mu while the plan is non-empty, so the pod phase converges "
-             "within mu(pods) rounds from every well-formed snapshot (TerminationProofs.v); in a world satisfying the decidable condition quietb a reconcile issues no "
-             "write at all (QuietProofs.v). Tie: histories of the real controller (random interleavings of "
-             "reconcile, kubelet, cache lag, faults, edits that stop; then a fair suffix) compared with the environment model per op inside coqc; the abstract "
-             "round compared with the full model's round inside coqc; convergence monitor on the implementation")
+             "within mu(pods) rounds from every well-formed snapshot, for any environment (TerminationProofs.v, TerminationEnv.v); a fair round of the FULL model "
+             "(revision phase, claiming, executor, status, truncation, kubelet) of a regular world has the members of the abstract round, so the full model's "
+             "rounds converge while worlds stay regular (RoundLift.v, RoundChain.v); in a quietb world a reconcile issues no write at all (QuietProofs.v). Tie: "
+             "histories of the real controller (random interleavings of reconcile, kubelet, cache lag, faults, edits that stop; then a fair suffix) compared with "
+             "the environment model per op inside coqc; regularity + round equality and quietb evaluated inside coqc on observed worlds; convergence monitor")
 ASSUMPTIONS = [
-    "PARTIAL: the step from the full reconcile model's round to the abstract round of TerminationProofs.v is evaluated inside coqc (family C02/round), not proved; "
+    "PARTIAL: preservation of regularity by a round of the full model (hypothesis of C02_full_model_converges for every round) is evaluated inside coqc "
+    "(family C02/round: round_check on worlds at the round boundaries of histories and on synthetic settled worlds), not proved; "
     "that a fair history ends in a world satisfying quietb (hypothesis of C02_quiet_world_no_write) is evaluated inside coqc on every final world (family C02/quiet) "
     "and decided on the implementation by the monitor (last two reconciles write nothing), not proved",
     "API-server, kubelet and informer-cache semantics are modelled (Env.v, World.v), validated per op against the fake clientsets + harness reactors",
